@@ -19,15 +19,18 @@ EXTENDS Integers, Sequences, FiniteSets, TLC, Json
 CONSTANTS KINDS,      \* set of kind names
           FAMILY,     \* function kind -> problem family (values of different families cannot be mixed)
           POINTS,     \* block-aligned time points common to all kinds, e.g. {0, 6, 12}
-          NCTRL, MAXOPS
+          NCTRL, MAXOPS,
+          ONESHOT     \* kinds with step-size control: the property promises reproducibility on a FRESH controller only, so such a
+                      \* controller is run at most once, from the initial value, over the whole interval
 
 Ctrl == 1 .. NCTRL
 
-VARIABLES ctrl,    \* controller -> kind or "none"
+VARIABLES used,    \* controllers that have run since they were created
+          ctrl,    \* controller -> kind or "none"
           vals,    \* sequence of [t, fam, term] : values available as inputs (results of earlier runs)
           hist     \* operations with their expected result terms
 
-vars == <<ctrl, vals, hist>>
+vars == <<ctrl, vals, hist, used>>
 
 Elem(a, b) == \* elementary segments between consecutive points of POINTS inside [a, b]
     {<<p, q>> \in POINTS \X POINTS : a <= p /\ p < q /\ q <= b /\ ~ \E r \in POINTS : p < r /\ r < q}
@@ -35,17 +38,20 @@ Elem(a, b) == \* elementary segments between consecutive points of POINTS inside
 RECURSIVE Apply(_, _, _, _)
 \* normal form of running `kind` over [a, b] from the term u
 Apply(kind, a, b, u) ==
-    IF a = b THEN u
+    IF kind \in ONESHOT THEN <<"seg", kind, a, b, u>>
+    ELSE IF a = b THEN u
     ELSE LET q == CHOOSE x \in POINTS : x > a /\ \A y \in POINTS : y > a => x <= y
          IN Apply(kind, q, b, <<"seg", kind, a, q, u>>)
 
 Init == /\ ctrl = [c \in Ctrl |-> "none"]
         /\ vals = <<>>
         /\ hist = <<>>
+        /\ used = {}
 
 New(c, k) == /\ Len(hist) < MAXOPS
              /\ ctrl' = [ctrl EXCEPT ![c] = k]
              /\ hist' = Append(hist, [op |-> "new", c |-> c, kind |-> k])
+             /\ used' = used \ {c}
              /\ UNCHANGED vals
 
 Run(c, a, b, src) ==
@@ -55,7 +61,11 @@ Run(c, a, b, src) ==
            ok == IF src = 0 THEN a = CHOOSE m \in POINTS : \A y \in POINTS : m <= y
                  ELSE vals[src].t = a /\ vals[src].fam = FAMILY[k]
            r == Apply(k, a, b, u)
+           first == CHOOSE m \in POINTS : \A y \in POINTS : m <= y
+           last  == CHOOSE m \in POINTS : \A y \in POINTS : m >= y
        IN /\ ok
+          /\ (k \in ONESHOT => (c \notin used /\ src = 0 /\ a = first /\ b = last))
+          /\ used' = used \cup {c}
           /\ vals' = Append(vals, [t |-> b, fam |-> FAMILY[k], term |-> r])
           /\ hist' = Append(hist, [op |-> "run", c |-> c, kind |-> k, a |-> a, b |-> b, src |-> src, inp |-> u, term |-> r,
                                     \* statistics are comparable only for the identical call (same segmentation)
@@ -68,7 +78,7 @@ Next == \/ \E c \in Ctrl, k \in KINDS : New(c, k)
 Spec == Init /\ [][Next]_vars
 
 \* the reference semantics is composable by construction; stated as a property of Apply
-Composable == \A k \in KINDS : \A a, b, c \in POINTS : (a < b /\ b < c) =>
+Composable == \A k \in KINDS \ ONESHOT : \A a, b, c \in POINTS : (a < b /\ b < c) =>
                   Apply(k, a, c, <<"init", FAMILY[k]>>) = Apply(k, b, c, Apply(k, a, b, <<"init", FAMILY[k]>>))
 NRuns == Cardinality({i \in 1 .. Len(hist) : hist[i].op = "run"})
 Export == (Len(hist) = MAXOPS /\ NRuns >= 2) => PrintT(ToJson([re |-> TRUE, hist |-> hist]))
